@@ -32,6 +32,10 @@ def base_specs():
     bare = [cc for cc in sorted(table()) if "positions" not in table()[cc]][:2]
     specs += [("props.c11", "DecomposeTask", (cc,)) for cc in bare]
     specs += [("props.c13", "RandomTask", (cc, 0, "")) for cc in bare[:1]]
+    # a country with published positions but without bank entries (absent from the country index)
+    from schwifty import registry
+    bankless = [cc for cc in sorted(table()) if cc not in registry.get("country") and "positions" in table()[cc]][:1]
+    specs += [("props.c13", "RandomTask", (cc, 1, "")) for cc in bankless]
     return specs
 
 
